@@ -21,7 +21,8 @@ def sh(cmd, cwd=None, timeout=600):
 def demo_cmd():
     if os.path.exists(os.path.join(out, "demo_test.go")):
         shutil.copy(os.path.join(out, "demo_test.go"), os.path.join(wt, "zz_seeded_demo_test.go"))
-        tags = "-tags verif " if "go:build verif" in open(os.path.join(out, "demo_test.go")).read() else ""
+        demo_src = open(os.path.join(out, "demo_test.go")).read()
+        tags = "-tags verif " if ("Verif" in demo_src or any(l.startswith("//go:build") and "verif" in l for l in demo_src.splitlines()[:10])) else ""
         return "go test " + tags + "-count=1 -run 'TestSeeded' . 2>&1 | tail -15"
     return None
 
